@@ -49,7 +49,7 @@ def item_list(tier):
             items.append(('abidw', n, o))
         for n, o in (('rvalueref', 'default'), ('lttng', 'default'), ('struct-change', 'redundant'), ('ppc64-aliases', 'harmless'), ('pr18818', 'leaf'), ('rvalueref', 'impacted'),
                      ('cxx-pool', 'impacted'), ('cxx-pool-rev', 'impacted'), ('cxx-pool', 'default'), ('emptymod', 'default'),
-                     ('ties', 'unreachable'), ('ties-rev', 'unreachable-leaf'), ('ties', 'unreachable-all'), ('twice-ties', 'unreachable')):
+                     ('ties', 'unreachable'), ('ties-rev', 'unreachable-leaf'), ('ties', 'unreachable-all'), ('twice-ties', 'unreachable'), ('rvalueref', 'unreachable')):
             items.append(('abidiff', n, o))
         for i in range(6):
             items.append(('abipkgdiff', 'pk%02d' % i, 'default'))
@@ -166,7 +166,7 @@ def make_plans(ctx, tier, items):
     known_inputs = set(k.split(':', 1)[1] for k in C.known_open(PROP))
     for name in sorted(items):
         # an input with a listed open finding gets more layouts, so that the finding shows (and is reported as KNOWN-FINDING) in every run
-        n = max(K_, 12) if '/'.join(name.split('/')[:2]) in known_inputs else K_
+        n = max(K_, 12) if '/'.join(name.split('/')[:2]) in known_inputs or name in known_inputs else K_
         for k in range(1, n + 1):
             plans.append({'item': name, 'params': {'k': k, 'layout_seed': C.mix_seed(ctx.seed, 14, 1, 1000 * i + k)}})
         i += 1
@@ -183,6 +183,8 @@ def execute(ctx, it, params):
     elif out != rout:
         verdict = ('output-differs', '%s: output differs between two layouts (%d vs %d bytes): %s' % (it['name'], len(out), len(rout), first_diff(out, rout)))
         key = 'output-differs:' + '/'.join(it['name'].split('/')[:2])      # tool/input: a finding on one input must not hide another
+        if 'output-differs:' + it['name'] in C.known_open(PROP):
+            key = 'output-differs:' + it['name']                            # a finding listed for one option set of that input only
     sm = o.res.get('simm', {})
     return F.Result(verdict, key, ['heap-layout', 'environment'] + (['schedule'] if it['tool'] == 'abipkgdiff' else []),
                     [(it['name'], sm.get('addr_hash'))], digest=(o.exit, o.signal, C.sha(out), sm.get('addr_hash')),
